@@ -93,18 +93,44 @@ func parsePairs(s string) (res [][2]int) {
 }
 
 // lr: args = limit, plens (comma), stream (hex), script "cap:err;..."
-func execLR(args []string) string {
+// sizedStreamReader is a streamReader that also reports how many bytes it can deliver right now
+// (as *bytes.Buffer, *bytes.Reader and *strings.Reader do); the figure may grow later.
+type sizedStreamReader struct {
+	*streamReader
+	size int
+}
+
+func (r sizedStreamReader) Len() int { return r.size }
+
+func execLR(args []string) string { return execLRWith(args, false) }
+
+// lrl: as lr, but the wrapped reader has a Len method answering 0 when the LimitReader is made
+func execLRL(args []string) string { return execLRWith(args, true) }
+
+func execLRWith(args []string, sized bool) string {
 	limit, _ := strconv.ParseUint(args[0], 10, 64)
 	sr := &streamReader{stream: UnH(args[2]), script: parsePairs(args[3])}
-	r := ioutil.LimitReader(sr, limit)
+	var src io.Reader = sr
+	if sized {
+		src = sizedStreamReader{streamReader: sr}
+	}
+	r := ioutil.LimitReader(src, limit)
 	var out []string
 	for _, ps := range SplitList(args[1], ",") {
-		p := make([]byte, Atoi(ps))
-		for i := range p {
-			p[i] = 0xEE
+		// the caller's buffer has spare capacity behind its length; nothing may be written there
+		size := Atoi(ps)
+		backing := make([]byte, size+8)
+		for i := range backing {
+			backing[i] = 0xEE
 		}
+		p := backing[:size]
 		before := len(sr.reqs)
 		n, err := r.Read(p)
+		for _, b := range backing[size:] {
+			if b != 0xEE {
+				return "WROTE-PAST-LEN-OF-BUFFER"
+			}
+		}
 		req := "-"
 		if len(sr.reqs) > before {
 			req = I(sr.reqs[before])
@@ -301,6 +327,9 @@ func genC15(g *G) {
 			sc = append(sc, [2]int{[]int{0, 1, 2, 5, 100, -3}[g.Rnd.IntN(6)], []int{0, 0, 0, 1, 2, 3, 4, 5}[g.Rnd.IntN(8)]})
 		}
 		g.Emit("lr", lim, joinInts(pl), H(stream(sl)), joinPairs(sc))
+		if i%4 == 0 {
+			g.Emit("lrl", lim, joinInts(pl), H(stream(sl)), joinPairs(sc))
+		}
 	}
 	// long runs of reads that make no progress ((0, nil) again and again), then data
 	for _, zeros := range []int{98, 99, 100, 101, 150, 300} {
@@ -314,6 +343,9 @@ func genC15(g *G) {
 		sc = append(sc, [2]int{3, 0}, [2]int{0, 0}, [2]int{5, 1})
 		g.Emit("lr", "10", joinInts(pl), H(stream(12)), joinPairs(sc))
 		g.Emit("lr", "2", joinInts(pl), H(stream(12)), joinPairs(sc))
+		// the same through a reader that has a Len method (a source that grows after the LimitReader was made)
+		g.Emit("lrl", "10", joinInts(pl), H(stream(12)), joinPairs(sc))
+		g.Emit("lrl", "2", joinInts(pl), H(stream(12)), joinPairs(sc))
 	}
 	// hostile counts (negative, zero, exact, over-long)
 	for i := 0; i < g.N(4000, 80000); i++ {
@@ -376,7 +408,7 @@ func genC15(g *G) {
 func init() {
 	properties["C15"] = &Property{
 		Gen:  genC15,
-		Exec: map[string]Executor{"lr": execLR, "lrx": execLRX, "tw": execTW, "twnest": execTWNest},
+		Exec: map[string]Executor{"lr": execLR, "lrl": execLRL, "lrx": execLRX, "tw": execTW, "twnest": execTWNest},
 		Nontrivial: func(fn string, args []string, obs string) bool {
 			// at least one call reached the wrapped reader / writer
 			for _, o := range strings.Fields(obs) {
